@@ -10,7 +10,7 @@ PID = 'C03'
 LEVEL = 'model_checking'
 TARGETS = sched.TARGETS
 ASSUMPTIONS = sched.ASSUMPTIONS + ['initial environment: every task absent, or present with status DONE / FAILED / SKIPPED (left by earlier runs) or WAITING / '
-                                   'PENDING (left by a run that was killed; configurations of the quick set only, in both tiers), arbitrary result '
+                                   'PENDING (left by a run that was killed; configurations of the quick set only -- in the thorough tier those with <= 2 tasks), arbitrary result '
                                    'and arbitrary earlier clocks (solver-chosen)',
                                    'a scheduler object used before: covered by induction -- every terminated run is shown to leave the work queue '
                                    'empty with no unfinished task, which is the state each analysed call starts from',
@@ -130,11 +130,11 @@ def replay_kwargs(extra):
 
 
 def _job(n, hard, soft, w, tier, seed=0):
-    # the wider initial-environment alphabet (WAITING / PENDING leftovers) is used for the configurations of the quick set, in both
-    # tiers; the other configurations of the thorough tier keep DONE / FAILED / SKIPPED leftovers, with which they were measured to be
+    # the wider initial-environment alphabet (WAITING / PENDING leftovers) is used for the configurations of the quick set (thorough tier:
+    # those with <= 2 tasks, whose unwinding queries were measured with it); the other configurations of the thorough tier keep DONE / FAILED / SKIPPED leftovers, with which they were measured to be
     # conclusive (a check that may end inconclusive on the unchanged tree is not registered)
     global LEFTOVERS
-    LEFTOVERS = sched.cfg_name(Config(n, hard, soft, w)) in {j[0] for j in jobs('quick')}
+    LEFTOVERS = sched.cfg_name(Config(n, hard, soft, w)) in {j[0] for j in jobs('quick')} and (tier == 'quick' or n <= 2)
     return run_job(Config(n, hard, soft, w), prop, tier, seed)
 
 
